@@ -15,10 +15,11 @@ from shapes import prod, fmt, fmt_lists
 
 ID = 'C14'
 LEVEL = 'proof'
-RULE = ('probe machine: every composition of a menu of 50 (1..4 functors: unary/binary/ternary probes in every position, swap/dup/dig/bury, '
+RULE = ('probe machine: every composition of a menu of 49 (1..4 functors: unary/binary/ternary probes in every position, swap/dup/dig/bury, '
         'every parenthesisation of the 3- and 4-chains) x every split of the operand list into chunks (exact, over- and under-supplied), '
-        'attribute/operand interleavings; functors: table of array/functional functors x every curry split vs direct view; '
-        'extraction: view trees of depth 1..4. non-trivial = more than one functor or more than one chunk')
+        'attribute/operand interleavings; functors: 43 functors of array/functional (indexing, ufunc, reduce, accumulate, outer, matmul, pooling, norms, activations) '
+        'x every curry split and attribute-before/after-operand form vs the direct view, random shapes dim 1..4; extraction: 31 view trees of depth 1..4 '
+        '(operand identity by address, apply(composition, operands) vs view, compute graphs incl. aliased leaves). non-trivial = more than one functor or more than one chunk; every functor / extraction case')
 EXHAUSTIVE = {'quick': False, 'thorough': False}
 ANCHORS = {'NmVerif.Functional.applyFn': 'functional::apply_function_t<functor_t>::operator() (functor.hpp:368-428), functor_t::operator[] / operator()',
            'NmVerif.Functional.applyComp/run': 'functional::apply_function_t<functor_composition_t>::operator() (functor.hpp:450-528)',
@@ -313,34 +314,35 @@ def _ext_progs():
     add('negative', 1, 'negative(0)', lambda rng: ([rshape(rng)], {}))
     add('matmul', 1, 'matmul(0,1)', g_matmul)
     add('concatenate', 1, 'concatenate(0,1)', g_concat)
-    add('where', 1, 'where(bcast(0),bcast(1),bcast(2))', g_where, nonfirst=True, data='cond')
-    add('vstack', 1, 'concatenate0(reshape_v(0),reshape_v(1))', g_vstack, nonfirst=True)
-    add('neg_add', 1, 'negative(add(0,1))', g_bin, graph=True)
-    add('sum_mul', 1, 'reduce_add(multiply(0,1))', g_bin_axis)
-    add('tr_add', 1, 'transpose(add(0,1))', g_bin_axes, graph=True)
-    add('cumsum_tr', 1, 'accumulate_add(transpose(0))', g_tr_axis)
-    add('add_tr', 2, 'add(transpose(0),1)', g_add_tr, bview=True)
-    add('add_mul2', 2, 'add(0,multiply(1,2))', g_tri, graph=True, nonfirst=True)
-    add('neg_add_mul', 2, 'negative(add(multiply(0,1),2))', g_tri, graph=True, bview=True)
-    add('tr_neg_add', 2, 'transpose(negative(add(0,1)))', g_bin_axes)
-    add('sum_tr_mul', 2, 'reduce_add(transpose(multiply(0,1)))', g_bin_axes_axis)
-    add('flip_tile_tr', 2, 'flip(tile(transpose(0)))', g_ftt)
-    add('neg_sub_max', 2, 'negative(subtract(0,reduce_max_keep(0)))', g_axis, nonfirst=True)
-    add('add_mm', 2, 'add(multiply(0,1),multiply(2,3))', g_quad, graph=True, nonfirst=True, sibling=True)
-    add('add_ms', 2, 'add(multiply(0,1),subtract(2,3))', g_quad, graph=True, nonfirst=True, sibling=True)
-    add('d4_neg_tr_neg_add', 3, 'negative(transpose(negative(add(0,1))))', g_bin_axes, graph=True)
-    add('d4_sum_tr_neg_mul', 3, 'reduce_add(transpose(negative(multiply(0,1))))', g_bin_axes_axis)
-    add('d4_flip_tile_tr_neg', 3, 'flip(tile(transpose(negative(0))))', g_ftt)
-    add('d4_cumsum_neg_tr_add', 3, 'accumulate_add(negative(transpose(add(0,1))))', g_bin_axes_axis)
-    add('rep_neg_add_mul', 3, 'negative(add(multiply(0,1),1))', lambda rng: (lambda s: ([s, bpartner(rng, s)], {}))(rshape(rng)), graph=True, bview=True)
-    add('al_add_mm', 4, 'add(multiply(a0,a1),multiply(a1,a2))', g_same3, graph=True, nonfirst=True)
-    add('al_neg_add_mul', 4, 'negative(add(multiply(a0,a1),a1))', g_same3, graph=True, bview=True)
-    add('al_add_mul2', 4, 'add(a0,multiply(a1,a2))', g_same3, graph=True, nonfirst=True)
+    add('where', 2, 'where(bcast(0),bcast(1),bcast(2))', g_where, nonfirst=True, data='cond')
+    add('vstack', 2, 'concatenate0(reshape_v(0),reshape_v(1))', g_vstack, nonfirst=True)
+    add('neg_add', 2, 'negative(add(0,1))', g_bin, graph=True)
+    add('sum_mul', 2, 'reduce_add(multiply(0,1))', g_bin_axis)
+    add('tr_add', 2, 'transpose(add(0,1))', g_bin_axes, graph=True)
+    add('cumsum_tr', 2, 'accumulate_add(transpose(0))', g_tr_axis)
+    add('add_tr', 3, 'add(transpose(0),1)', g_add_tr, bview=True)
+    add('add_mul2', 3, 'add(0,multiply(1,2))', g_tri, graph=True, nonfirst=True)
+    add('neg_add_mul', 3, 'negative(add(multiply(0,1),2))', g_tri, graph=True, bview=True)
+    add('tr_neg_add', 3, 'transpose(negative(add(0,1)))', g_bin_axes)
+    add('sum_tr_mul', 3, 'reduce_add(transpose(multiply(0,1)))', g_bin_axes_axis)
+    add('flip_tile_tr', 4, 'flip(tile(transpose(0)))', g_ftt)
+    add('neg_sub_max', 4, 'negative(subtract(0,reduce_max_keep(0)))', g_axis, nonfirst=True)
+    add('add_mm', 4, 'add(multiply(0,1),multiply(2,3))', g_quad, graph=True, nonfirst=True, sibling=True)
+    add('add_ms', 4, 'add(multiply(0,1),subtract(2,3))', g_quad, graph=True, nonfirst=True, sibling=True)
+    add('d4_neg_tr_neg_add', 5, 'negative(transpose(negative(add(0,1))))', g_bin_axes, graph=True)
+    add('d4_sum_tr_neg_mul', 5, 'reduce_add(transpose(negative(multiply(0,1))))', g_bin_axes_axis)
+    add('d4_flip_tile_tr_neg', 5, 'flip(tile(transpose(negative(0))))', g_ftt)
+    add('d4_cumsum_neg_tr_add', 5, 'accumulate_add(negative(transpose(add(0,1))))', g_bin_axes_axis)
+    add('rep_neg_add_mul', 6, 'negative(add(multiply(0,1),1))', lambda rng: (lambda s: ([s, bpartner(rng, s)], {}))(rshape(rng)), graph=True, bview=True)
+    add('al_add_mm', 7, 'add(multiply(a0,a1),multiply(a1,a2))', g_same3, graph=True, nonfirst=True)
+    add('al_neg_add_mul', 7, 'negative(add(multiply(a0,a1),a1))', g_same3, graph=True, bview=True)
+    add('al_add_mul2', 6, 'add(a0,multiply(a1,a2))', g_same3, graph=True, nonfirst=True)
+    add('al_neg_sq', 6, 'negative(multiply(a0,a0))', lambda rng: ([rshape(rng, cap=12)], {}), graph=True)
     return pr
 
 
 EXT = _ext_progs()
-EXT_GROUPS = [1, 2, 3, 4]
+EXT_GROUPS = [1, 2, 3, 4, 5, 6, 7]
 
 
 def parse_kv(ans):
@@ -401,7 +403,8 @@ def canon_graph(ans):
         else:
             m = re.fullmatch(r'F(\d+)\[(.*)\]', lab)
             nodes[k] = ('F', [x for x in m.group(2).split('/') if x != ''])
-    edges = set() if d['edges'] == '[]' else set(tuple(e.split('>')) for e in d['edges'].split(','))
+    elist = [] if d['edges'] == '[]' else [tuple(e.split('>')) for e in d['edges'].split(',')]
+    edges = set(elist)
     want = set((o, k) for k, (kind, v) in nodes.items() if kind == 'F' for o in v)
     memo = {}
 
@@ -413,7 +416,7 @@ def canon_graph(ans):
             memo[k] = 'L' + v if kind == 'L' else 'F(' + ','.join(sig(o, depth + 1) for o in v) + ')'
         return memo[k]
     sigs = sorted(sig(k) for k in nodes)
-    return 'graph n=%d edges_ok=%d sigs=%s' % (len(nodes), int(edges == want), '|'.join(sigs))
+    return 'graph n=%d edges_ok=%d dup_edges=%d sigs=%s' % (len(nodes), int(edges == want), int(len(elist) != len(edges)), '|'.join(sigs))
 
 
 def graph_cmp(a, b):
